@@ -1,25 +1,19 @@
-(* Correspondence cases for C18: several sessions sharing one middleware value. *)
+(* Correspondence cases for C18: several connections sharing one middleware
+   value — overlapping in time, or one beginning after another has ended. *)
 From Moc Require Import Base Msg Mw MwCheck.
 Open Scope Z_scope.
 
 Inductive case :=
-| CSys (now : Z) (mws : list mwdesc) (nsess : nat) (h : list (nat * op)) (obs : list obs)
+| CSys (now : Z) (mws : list mwdesc) (nslots : nat) (h : list (nat * lop)) (obs : list obs)
 | CBroken.
 
-Definition model_agrees (now : Z) (ks : list mwk) (nsess : nat) (h : list (nat * op)) (obs : list obs) : bool :=
-  obs_list_eqb (List.map snd h) (snd (sys_run now (sys_init ks nsess) h)) obs.
-
-(** the oracle judges every session on its own projected history: whatever
-    the other sessions did must not show *)
-Definition sessions_ok (now : Z) (ks : list mwk) (nsess : nat) (h : list (nat * op)) (obs : list obs) : bool :=
-  Nat.eqb (length h) (length obs) &&
-  forallb (fun j => session_ok now ks (proj j h) (proj j (combine (List.map fst h) obs))) (seq 0 nsess) &&
-  forallb (fun io => Nat.ltb (fst io) nsess) h.
-
+(** model: [lsys_run] (a fresh state per connection); oracle: every slot is
+    judged on its own projected history, every connection from the initial
+    state of the text *)
 Definition run_case (c : case) : bool * bool :=
   match c with
-  | CSys now mws nsess h obs =>
-      (model_agrees now (List.map desc_model mws) nsess h obs,
-       sessions_ok now (List.map desc_spec mws) nsess h obs)
+  | CSys now mws nslots h obs =>
+      (life_model_agrees now (List.map desc_model mws) nslots h obs,
+       life_ok now (List.map desc_spec mws) nslots h obs)
   | CBroken => (false, false)
   end.
